@@ -228,6 +228,7 @@ class PNode(object):
 class SelfObj(object):
     def __init__(self, ci):
         self.ci = ci
+        self.fields = {}       # instance fields with a known (stateless) value, e.g. an action table built in __init__
 
 
 class ClassVal(object):
@@ -771,6 +772,9 @@ class Interp(object):
                 return
         if isinstance(t, ast.Attribute):
             obj = self.eval(t.value, env, module, owner, depth)
+            if isinstance(obj, SelfObj) and getattr(self, 'init_phase', False):
+                obj.fields[t.attr] = v
+                return
             if isinstance(obj, (SelfObj, StateVal)):
                 self.state_writes.append('self.%s' % t.attr if isinstance(obj, SelfObj) else '%s.%s' % (obj.text, t.attr))
                 return
@@ -930,6 +934,8 @@ class Interp(object):
             if v is not None:
                 return Opaque('%s.%s' % (obj.ci.name, attr))
             if isinstance(obj, SelfObj):
+                if attr in obj.fields:
+                    return obj.fields[attr]
                 self.state_reads.append(attr)
                 return StateVal('self.%s' % attr)
             return Opaque('%s.%s' % (obj.ci.name, attr))
@@ -1251,6 +1257,10 @@ class Interp(object):
             return External(args[0])
         if name == 'hasattr' and len(args) == 2:
             return Unknown(('hasattr', show(args[0]), show(args[1])))
+        if name == 'dict' and len(args) <= 1 and (not args or isinstance(args[0], dict)):
+            d = dict(args[0]) if args else {}
+            d.update(kwargs)
+            return d
         if name in ('set', 'sorted', 'dict', 'max', 'min', 'repr', 'type', 'id', 'callable', 'map', 'filter'):
             return Opaque('%s(...)' % name)
         if name.endswith('Error') or name.endswith('Exception'):
